@@ -161,6 +161,22 @@ def check(tier):
                 for ds in dists:
                     for po in posts:
                         inputs.append({"family": "distinct", "kind": "src", "text": " | ".join(x for x in (r_, so, pj, ds, po) if x)})
+    # (b5) declarations that refer to themselves or to each other: imports, functions, let-bound relations, types, modules
+    names = ["x", "y", "m.x", "std.sum", "t"]
+    for n1 in names:
+        inputs.append({"family": "decl", "kind": "src", "text": f"import {n1}\nfrom x"})
+        inputs.append({"family": "decl", "kind": "src", "text": f"import {n1} as x\nfrom t | aggregate {{s = x a}}"})
+        for n2 in names:
+            inputs.append({"family": "decl", "kind": "src", "text": f"module a {{ import b.{n1.split('.')[-1]} }}\nmodule b {{ import a.{n2.split('.')[-1]} }}\nfrom a.{n1.split('.')[-1]}"})
+            inputs.append({"family": "decl", "kind": "src", "text": f"import {n1} as {n2.split('.')[-1]}\nimport {n2} as {n1.split('.')[-1]}\nfrom t | select {{{n1.split('.')[-1]}}}"})
+    for body in ("f a", "g a", "(f a) + 1", "a | f", "f (f a)", "case [a > 0 => f (a - 1), true => 0]"):
+        inputs.append({"family": "decl", "kind": "src", "text": f"let f = a -> {body}\nlet g = a -> f a\nfrom t | derive {{y = f 1}}"})
+    for r1, r2 in (("r", "r"), ("s", "r"), ("t", "r"), ("r | take 1", "r")):
+        inputs.append({"family": "decl", "kind": "src", "text": f"let r = (from {r1})\nlet s = (from {r2})\nfrom r | join s (==a)"})
+    for src in ("type x = x\nfrom t", "type x = y\ntype y = x\nfrom t", "module m { module m { let t = (from m.t) } }\nfrom m.m.t", "let x = x\nfrom t | select {x}",
+                "let x = y\nlet y = x\nfrom t | select {x}", "from t | loop (loop (take 1))", "from t | loop (from t | loop (take 1))", "module std { let sum = 1 }\nfrom t | aggregate {sum a}",
+                "let this = 1\nfrom t | select {this.a}", "let default_db = 1\nfrom t", "module default_db { module default_db { let t <[{a = int}]> } }\nfrom t"):
+        inputs.append({"family": "decl", "kind": "src", "text": src.replace("\\n", "\n")})
     # (c) programs of the L1 machine incl. every scope-breaking edit, and random programs outside the safe profile
     m = model([from_("t")], l1props.alph_c10(), 3 if tier == "quick" else 4)
     progs, info = l1.mc_generate("C12-mc", m, dbset, workers=8)
